@@ -32,7 +32,10 @@ def closed(regime, sign, secs):
 
 
 def rel_close(code, exact, tol=Decimal("1e-9")):
-    c = Decimal(repr(float(code)))
+    try:
+        c = Decimal(repr(float(code)))
+    except (TypeError, ValueError):
+        return False            # not a number at all (e.g. the amount was never computed)
     return abs(c - exact) <= tol * max(Decimal(1), abs(exact))
 
 
@@ -75,7 +78,7 @@ def replay_chunk(ctx, texts):
                 continue
             before = closed(regime, sign, op["from"])
             amount = before * (base_of(regime, sign) ** (Decimal(op["span"]) / Y) - 1)
-            if not rel_close(val, amount, Decimal("1e-9")) and abs(Decimal(repr(float(val))) - amount) > Decimal("1e-9") * abs(before):
+            if not rel_close(val, amount, Decimal("1e-9")) and not rel_close(val, amount, Decimal("1e-9") * max(Decimal(1), abs(before))):
                 bad = (i, "idle_profit" if op["op"] == "rebalance" else "amount",
                        "%s at t=%s returned %r, closed form %s (regime %s, sign %s, balance compounded over %s s, span %s s)" % (
                            op["op"], op["t"], val, amount, regime, sign, op["from"], op["span"]))
